@@ -174,10 +174,15 @@ class SmilesToken(BigSMILESbase):
                         preceding_characters = preceding_characters[
                             preceding_characters.find("(") + 1 :
                         ]
-                    if ")" in elementB:
-                        preceding_characters += elementB[: preceding_characters.find(")")]
-                    else:
-                        preceding_characters += elementB
+                    # Only characters directly following the descriptor can describe its bond,
+                    # stop at a closing branch or the next bond descriptor.
+                    following_characters = elementB
+                    for stop_char in (")", "["):
+                        if stop_char in following_characters:
+                            following_characters = following_characters[
+                                : following_characters.find(stop_char)
+                            ]
+                    preceding_characters += following_characters
 
                     bond = BondDescriptor(
                         bond_text,
